@@ -60,8 +60,12 @@ type zipCtx struct {
 
 var zipSimpleParen = regexp.MustCompile(`(^|[^\w.)\]])\(([A-Za-z_][\w.]*(\(\))?)\)`)
 
+var zipLenOfBuf = regexp.MustCompile(`len\(((?:\w+\.)*(?:buffer|buf))\)`)
+
 func (z *zipCtx) norm(e ast.Expr) string {
 	s := strings.ReplaceAll(stripSpaces(types.ExprString(e)), z.recv+".", "")
+	// a batch buffer kept as a plain byte slice: len(buffer) is its length
+	s = zipLenOfBuf.ReplaceAllString(s, "$1.Len()")
 	if len(z.roles) > 0 {
 		for _, ro := range z.roles {
 			s = replaceWord(s, ro[0], ro[1])
@@ -208,6 +212,26 @@ func (z *zipCtx) config(inline bool) paths.Config {
 					} else if len(v.Rhs) == 1 {
 						rhs = v.Rhs[0]
 						rs = z.norm(rhs)
+					}
+					// a batch buffer kept as a plain byte slice: append is the write, re-slicing to nothing
+					// (or nil) the reset
+					if (ls == "buffer" || ls == "buf") && rhs != nil && isByteSlice(info.TypeOf(l)) {
+						switch rv := ast.Unparen(rhs).(type) {
+						case *ast.CallExpr:
+							if id, ok := rv.Fun.(*ast.Ident); ok && id.Name == "append" && len(rv.Args) >= 2 && z.norm(rv.Args[0]) == ls {
+								out = append(out, paths.Event{Kind: "WRITE", Pos: v.Pos()})
+							}
+						case *ast.SliceExpr:
+							if z.norm(rv.X) == ls && rv.High != nil {
+								if k, ok := constIntOf(info, rv.High); ok && k == 0 {
+									out = append(out, paths.Event{Kind: "RESET", Arg: ls, Pos: v.Pos()})
+								}
+							}
+						case *ast.Ident:
+							if rv.Name == "nil" {
+								out = append(out, paths.Event{Kind: "RESET", Arg: ls, Pos: v.Pos()})
+							}
+						}
 					}
 					switch {
 					case strings.HasSuffix(ls, ".Records"):
